@@ -126,7 +126,9 @@ class FunRun:
                 sub = [a for a in args if isinstance(a, dict) and "__side" in a]
                 maps = [a for a in args if isinstance(a, interp.HMap)]
                 if len(sub) == 1:
+                    parts = [a.args[0] for a in args if isinstance(a, interp.V) and a.name == "Option::Some" and isinstance(a.args[0], list)]
                     ev.append(("eval", sub[0]["__side"], bool(maps and maps[0] is fmap)))
+                    ev.append(("scope", sub[0]["__side"], "partition" if (parts and partition is not None and parts[0] is partition) else ("none" if not parts else "other")))
                     if maps and maps[0] is fmap:
                         dict.__setitem__(fmap, sub[0]["__text"], "val:" + sub[0]["__side"])
                     return ({"__variant": "val:" + sub[0]["__side"]},)
@@ -156,3 +158,32 @@ class FunRun:
                 env[p["id"]] = interp.Opaque(p.get("name") or "?")
         got = interp.Interp(call=call, prog=self.ctx.prog, max_steps=40000).run(self.hir, env)
         return got, ev, fmap
+
+
+
+def nested_scope(ctx):
+    """C08-R4: inside a group, the arguments of a function are evaluated over that group's rows: get_function_value hands the
+    partition it was given to the evaluation of its first argument and of every further argument (format_size(sum(size)),
+    concat(count(*), ' files')), for scalar and aggregate functions alike"""
+    run = FunRun(ctx)
+    part = [interp.HMap({"<ARG>": "2"})]
+    n = 0
+    for aggregate in (False, True):
+        try:
+            got, ev, memo = run.run(aggregate=aggregate, partition=part, extra=("A1",) if not aggregate else ())
+        except interp.Undecided as e:
+            ctx.obligation(False)
+            ctx.violation("groups/nested-scope/unreadable", ctx.where(GFUNV), "cannot evaluate get_function_value inside a group: %s" % e)
+            return
+        scopes = [e for e in ev if e[0] == "scope"]
+        for sc in scopes:
+            n += 1
+            ok = sc[2] == "partition"
+            ctx.obligation(ok)
+            if not ok:
+                ctx.violation("groups/nested-scope/%s" % ("aggregate" if aggregate else "scalar"), ctx.where(GFUNV),
+                              "inside a group the argument `%s` of %s function is evaluated over %s instead of the group's rows: an aggregate nested in a "
+                              "function (format_size(sum(size))) then shows the total of the whole result in every group" %
+                              (sc[1], "an aggregate" if aggregate else "a scalar", "the whole buffer (buffer_data = None)" if sc[2] == "none" else "other rows"))
+    ctx.covered("argument evaluations of get_function_value inside a group (partition handed on)", n, distinct_keys=["scalar", "aggregate"], exhaustive=True)
+    ctx.floor(n, 3, "argument evaluations inside a group", GFUNV)
